@@ -247,7 +247,7 @@ func checkC17(c *Ctx, r *Report) {
 	// pass: the cipher-suite listing asks for list index 0 first and collects into a buffer of
 	// its own (rule shared with C16, C12, C05); each SDR walk fills a map it allocated itself
 	// (shared with C14)
-	checkChunkLoop(c, r)
+	cipherParser := checkChunkLoop(c, r)
 	r.Rule("walk-fills-own-map", "each pass over the SDR repository fills a map allocated by that pass", 1)
 	if walk, mu := c.findSDRWalk(); walk == nil || mu == nil {
 		r.Lost("SDR walk (function updating a bmc.SDRRepository map)")
@@ -258,6 +258,12 @@ func checkC17(c *Ctx, r *Report) {
 	// the DCMI sensor enumeration reuses one command for every entity: what it hands out per
 	// entity is a list of its own, not the command's response slice (rules shared with C16)
 	checkDCMISensorInfo(c, r)
+	// ... and each cipher-suite record is parsed into a value of its own: a field set only for
+	// some records (the OEM enterprise number) does not carry over to the records after it
+	// (rules shared with C16, C12)
+	if cipherParser != nil {
+		checkCipherSuiteParser(c, r, cipherParser)
+	}
 
 	checkResponseAlwaysDecoded(c, r)
 
